@@ -99,6 +99,12 @@ def run(ctx):
         # later updates then stop half-way at a point that follows the order among independent tasks (C18's subject);
         # compared up to the first raising operation, that one by its exception class
         ecut = min(next((j for j, o in enumerate(ol[i]) if o["err"] is not None), len(c["ops"])) for ol in aruns.values())
+        # an update whose triggered tasks carry an ordering cycle (known finding ordering-cycle) ends in a state that follows the
+        # hash seed: compared up to the operation before, as in the main stream
+        for ol in aruns.values():
+            tp = mc.tainted_prefix(ol[i])
+            if tp is not None:
+                cut = min(cut, tp)
         if ecut < cut:
             ts = {cfg: transcript(ol[i][:ecut]) + transcript(ol[i][ecut:ecut + 1], full=False) for cfg, ol in aruns.items()}
         else:
